@@ -352,6 +352,10 @@ class StateRun(object):
         self.wire_done = 0
         self.model = Model()
         self.frozen = False
+        self.prior = False
+        self.in_silent = False
+        self.unheard = False
+        self.state_listening = set()
         self.state = None
         self.boot = None
         self.next_cid = 1
@@ -402,6 +406,9 @@ class StateRun(object):
     # ------------------------------------------------------------------ emission
     def send_circ(self, c, reason=None):
         line = self.circ_line(c, reason)
+        if self.unheard:
+            self.tor.emit('CIRC', line)
+            return
         if self.tor.emit('CIRC', line):
             self.wire.append((self.tor.sent, 'CIRC', line))
             self.sim.log('ev', 'CIRC', line[:100])
@@ -409,6 +416,9 @@ class StateRun(object):
 
     def send_stream(self, s, extra=()):
         line = self.stream_line(s, extra)
+        if self.unheard:
+            self.tor.emit('STREAM', line)
+            return
         if self.tor.emit('STREAM', line):
             self.wire.append((self.tor.sent, 'STREAM', line))
             self.sim.log('ev', 'STREAM', line[:100])
@@ -424,13 +434,13 @@ class StateRun(object):
 
     # ------------------------------------------------------------------ world moves
     def world_actions(self):
-        if self.frozen and not ({'CIRC', 'STREAM'} <= self.tor.subscribed):
+        if self.frozen and not self.heard_by_state():
             return []
         if self.events_left <= 0:
             return []
         if self.tor.gone:
             return []
-        if not ({'CIRC', 'STREAM'} <= self.tor.subscribed) and self.tor.conn is not None:
+        if not self.heard_by_state() and not self.in_silent:
             # moves the controller cannot see yet: bounded
             if self.silent_left <= 0:
                 return []
@@ -450,6 +460,10 @@ class StateRun(object):
                 acts.append((2, 'w:circ-built:%d' % c.id, lambda c=c: self.w_circ_built(c)))
             if c.status in ('LAUNCHED', 'EXTENDED', 'GUARD_WAIT'):
                 acts.append((1, 'w:circ-fail:%d' % c.id, lambda c=c: self.w_circ_end(c, 'FAILED')))
+            if c.status == 'BUILT' and len(c.path) < 5 and not c.close_requested and self.prop in ('C07', 'C08') \
+                    and not any(s.circ is c for s in self.streams.values()):
+                # Tor re-uses ("cannibalises") a built circuit: it is extended by a further hop and built again
+                acts.append((1, 'w:circ-cannibalise:%d' % c.id, lambda c=c: self.w_circ_cannibalise(c)))
             if c.status == 'BUILT':
                 w = 3 if c.close_requested else 1
                 acts.append((w, 'w:circ-close:%d' % c.id, lambda c=c: self.w_circ_end(c, 'CLOSED')))
@@ -462,15 +476,31 @@ class StateRun(object):
             acts.extend(self.stream_moves(s, built))
         return acts
 
+    def heard_by_state(self):
+        """do the transitions Tor reports from now on reach the state tracker?"""
+        if self.prior:
+            return {'CIRC', 'STREAM'} <= self.state_listening
+        return {'CIRC', 'STREAM'} <= self.tor.subscribed
+
     def silent_move(self):
         self.silent_left -= 1
-        conn, self.tor.conn = self.tor.conn, None
+        conn = self.tor.conn
+        self.in_silent = True
+        if self.prior and {'CIRC', 'STREAM'} <= self.tor.subscribed:
+            # the application's own listeners hear it (it is on the wire); the state tracker is not listening yet and
+            # learns of it from the snapshot it takes afterwards
+            self.unheard = True
+            self.sim.probe('event-delivered-before-state-tracker-listens')
+        else:
+            self.tor.conn = None
         try:
             acts = [a for a in self.world_actions() if a[0] > 0]
             if acts:
                 acts[self.ch.weighted([a[0] for a in acts], 'silent')][2]()
         finally:
             self.tor.conn = conn
+            self.in_silent = False
+            self.unheard = False
 
     def new_cid(self):
         ch = self.ch
@@ -500,6 +530,10 @@ class StateRun(object):
         c.path = c.path + [r]
         c.status = 'EXTENDED'
         self.send_circ(c)
+
+    def w_circ_cannibalise(self, c):
+        self.sim.probe('circuit-extended-after-built')
+        self.w_circ_extend(c)
 
     def w_circ_built(self, c):
         c.status = 'BUILT'
@@ -958,6 +992,22 @@ class StateRun(object):
         self.prehistory(pre)
         self.tor.subscribed = set()
         self.proto = TorControlProtocol()
+        if self.prop == 'C07' and ch.chance(1, 6, 'priorlisteners'):
+            # the connection has a history when the state tracker comes to it: the application subscribed to CIRC and
+            # STREAM itself first, so Tor reports transitions (and they are delivered) before TorState listens
+            sim.probe('state-built-on-connection-that-already-delivers-events')
+            self.app_heard = []
+            self.prior = True
+            real_add = self.proto.add_event_listener
+
+            def add_event_listener(evt, cb):
+                if getattr(cb, '__self__', None) is self.state_obj:
+                    self.state_listening.add(getattr(evt, 'name', evt))
+                return real_add(evt, cb)
+            self.proto.add_event_listener = add_event_listener
+            self.proto.post_bootstrap.addCallback(lambda p: (
+                self.proto.add_event_listener('CIRC', self.app_heard.append),
+                self.proto.add_event_listener('STREAM', self.app_heard.append), p)[2])
         self.state_obj = TorState(self.proto)
         self.state = self.state_obj
         self.real_circs = []
@@ -1114,6 +1164,8 @@ class C08Run(StateRun):
         self.waits = []
         self.listener_ops = ch.draw(self.P.get('max_listener_ops', 8) + 1, 'nlops')
         self.wait_ops = ch.draw(self.P.get('max_waits', 12) + 1, 'nwaits')
+        self.unlisten_ops = ch.draw(3, 'nunl')
+        self.relisten_ops = ch.draw(3, 'nrel')
         self.note_widx = []
         self.step_self_removed = set()
         self.sim.add_source(self.c08_actions)
@@ -1127,6 +1179,10 @@ class C08Run(StateRun):
             acts.append((2, 'listener-op', self.op_listener))
         if self.wait_ops > 0 and (self.model.all_circs or self.model.all_streams):
             acts.append((3, 'wait-op', self.op_wait))
+        if self.unlisten_ops > 0 and self.unlisten_cands():
+            acts.append((1, 'unlisten-op', self.op_unlisten))
+        if self.relisten_ops > 0 and self.relisten_cands():
+            acts.append((2, 'relisten-op', self.op_relisten))
         return acts
 
     # ---- listeners
@@ -1183,6 +1239,67 @@ class C08Run(StateRun):
             else:
                 self.state.add_stream_listener(dbl)
         self.regs.append(r)
+
+    def relisten_cands(self):
+        cands = []
+        for r in self.regs:
+            if getattr(r, 'pending', False) or r.remove_points:
+                continue
+            dbl = self.doubles[r.lid]
+            if r.scope == 'global':
+                for o in r.excluded:
+                    if not o.gone and o.real is not None and dbl not in o.real.listeners:
+                        cands.append((r, o))
+            elif not r.active and not r.scope.gone and r.scope.real is not None and dbl not in r.scope.real.listeners:
+                cands.append((r, r.scope))
+        return sorted(cands, key=lambda c: (c[0].lid, c[1].id))
+
+    def op_relisten(self):
+        """a listener that was removed from an object earlier is registered on it again: it is a registered
+        listener once more and hears every later transition"""
+        sim = self.sim
+        cands = self.relisten_cands()
+        self.relisten_ops -= 1
+        if not cands:
+            return
+        r, o = self.ch.pick(cands, 'relisten-which')
+        sim.probe('listener-registered-again-after-removal')
+        sim.log('listen-again', r.lid, r.kind, o.id)
+        if r.scope == 'global':
+            r.excluded.discard(o)
+        else:
+            r.active = True
+        o.real.listen(self.doubles[r.lid])
+
+    def unlisten_cands(self):
+        m = self.model
+        cands = []
+        for r in self.regs:
+            if not r.active or getattr(r, 'pending', False) or r.remove_points:
+                continue
+            dbl = self.doubles[r.lid]
+            if r.scope == 'global':
+                for o in (m.circs.values() if r.kind == 'circ' else m.streams.values()):
+                    if o not in r.excluded and o.real is not None and dbl in o.real.listeners:
+                        cands.append((r, o))
+            elif r.scope.real is not None and dbl in r.scope.real.listeners:
+                cands.append((r, r.scope))
+        return sorted(cands, key=lambda c: (c[0].lid, c[1].id))
+
+    def op_unlisten(self):
+        sim = self.sim
+        cands = self.unlisten_cands()
+        self.unlisten_ops -= 1
+        if not cands:
+            return
+        r, o = self.ch.pick(cands, 'unlisten-which')
+        if r.scope == 'global':
+            r.excluded.add(o)
+        else:
+            r.active = False
+        sim.probe('listener-removed')
+        sim.log('unlisten', r.lid, r.kind, o.id)
+        o.real.unlisten(self.doubles[r.lid])
 
     def spawn_listener(self, dbl, real):
         """a global listener double registers another global listener from inside a *_new notification: the
